@@ -48,7 +48,7 @@ WorkBounded == m.heavy \/ m.work < MaxWork
 Running(x) == ~x.fatal /\ ~x.ended /\ ~x.exited
 S == last'
 \* closer without opener: an ErrorStep that is reported; nothing underflows
-StrayKinds(s) == CloserKinds(Op(s.op).e)
+StrayKinds(s) == CloserKinds(Op(s.op).e) \ {"ph"}      \* DEPHASE without PHASE is accepted by the code
 ClosersNeverUnderflow ==
   [][(Live(m) /\ S.argc <= AMAX /\ StrayKinds(S) # {} /\ ~HasOpen(m, StrayKinds(S))) => m' = Err(Tick(m))]_vars
 StrayIfClosers ==
